@@ -138,6 +138,7 @@ let fen_matches_game (fen : n list) (g : gstate) : string option =
     else None
   | _ -> Some "reported FEN does not decode"
 
+let engfen_prop = ref "prop=C14"
 let handle_engfen line args obs =
   match args with
   | stok :: "::" :: ops ->
@@ -151,12 +152,19 @@ let handle_engfen line args obs =
     let check i =
       let o = List.nth observed i in
       let m = codes_of_str (eng_position !e) in
+      if o = "CRASH" || o = "REJ" then begin
+        (* the move string came from the game: if the specification game accepted it, the engine had to *)
+        (match !g with
+         | Some _ -> report_spec ~key:!engfen_prop line (Printf.sprintf "op#%d: a legal move string %s" i (if o = "CRASH" then "crashed the engine" else "was rejected"))
+         | None -> report_mismatch line (Printf.sprintf "op#%d: %s" i o))
+      end else begin
       if m <> o then report_mismatch line (Printf.sprintf "op#%d: %s" i m);
       (match !g with
        | Some gs -> (match fen_matches_game (str_of_codes o) gs with
-           | Some what -> report_spec ~key:"prop=C14" line (Printf.sprintf "op#%d: reported FEN is not the standard FEN of the game: %s" i what)
+           | Some what -> report_spec ~key:!engfen_prop line (Printf.sprintf "op#%d: reported FEN is not the standard FEN of the game: %s" i what)
            | None -> ())
-       | None -> ()) in
+       | None -> ())
+      end in
     check 0;
     List.iteri (fun k op ->
         (match split_on ':' op with
@@ -238,6 +246,7 @@ let handle (line : string) (kind : string) (args : string list) (obs : string) :
   | "parsemove" -> handle_parsemove line args obs
   | "parsesq" -> handle_parsesq line args obs
   | "engmove" -> handle_engmove line args obs
-  | "engfen" -> handle_engfen line args obs
+  | "engfen" -> engfen_prop := "prop=C14"; handle_engfen line args obs
+  | "enggame" -> engfen_prop := "prop=C19"; handle_engfen line args obs
   | "ucipos" -> handle_ucipos line args obs
   | _ -> failwith ("unknown case kind: " ^ line)
